@@ -93,11 +93,14 @@ pub fn blocks(thorough: bool) -> Vec<Block> {
         b.push(Block::new(u_nested_rep(), vec![Cfg::new(R), Cfg::new(R | X)], "r, r+x"));
         b.push(Block::new(u_long_units(), vec![Cfg::new(R), Cfg::with(R, 2, 1)], "r, r(2,1)"));
         b.push(Block::new(u_long_prefix(), vec![Cfg::new(0), Cfg::new(NE), Cfg::new(I)], "{}, ne, i"));
+        b.push(Block::new(Universe::new("U_bytes{a,b,U+20AC}", &["a", "b", "\u{20ac}"], 3, 3, false), vec![Cfg::new(0)], "{} (sort order by byte length vs number of graphemes)"));
+        b.push(Block::new(Universe::new("U_bytes{a,e9,U+20AC,U+1F600}", &["a", "\u{e9}", "\u{20ac}", "\u{1f600}"], 2, 3, false), vec![Cfg::new(0)], "{} (1-, 2-, 3- and 4-byte characters)"));
+        b.push(Block::new(Universe::new("U_adv(cluster units)", &["\u{d4e}a", ".\u{1f3fb}", "1\u{e33}", "a", "\u{111c2}-", "+\u{ff9e}"], 4, 1, false), vec![Cfg::new(R), Cfg::new(R | D), Cfg::new(R | X)], "r, r+d, r+x"));
         b.push(Block::new(u_alias_pairs(), lattice_le(0, CLASS_BITS | R | I, 2), "<=2 of the class flags, r, i"));
         b.push(Block::new(u_long_literal_at(), vec![Cfg::new(X), Cfg::new(0), Cfg::new(X | NA | NE)], "x, {}, x+na+ne"));
         b.push(Block::new(u_prefix_suffix2(4), vec![Cfg::new(D), Cfg::new(R), Cfg::new(W | R)], "d, r, w+r"));
         b.push(Block::new(u_feature_rich(), full.clone(), "Lambda_full (no u,c): all 8,192 combinations"));
-        b.push(Block::new(u_long_runs(40), vec![Cfg::new(R), Cfg::new(R | W), Cfg::new(0)], "r, r+w, {}"));
+        b.push(Block::new(u_long_runs(100), vec![Cfg::new(R), Cfg::new(R | W), Cfg::new(0)], "r, r+w, {}"));
         b.push(Block::new(u_corpus("U_longstr", verif_seed() + 7, 4_000, &["a", "b", "c"], (1, 1), (40, 90)), vec![Cfg::new(R)], "r (corpus of long single strings)"));
     } else {
         b.push(Block::new(Universe::new("U_adv(A_cons)", A_CONS, 1, 5, false), k1.clone(), "Lambda<=1 (no u,c)"));
